@@ -18,7 +18,7 @@ SPEC = dict(
     workers=16,
     # sized in CPU time: quick needs about 12 CPU-minutes (45..60 s wall on 16 free cores); the deadline only
     # protects against a heavily shared machine and ends the run with exhaustive:false, never with a verdict
-    deadline={"quick": 600, "thorough": 3000},
+    deadline={"quick": 600, "thorough": 3600},
     rule="a case = (sorted key record, fragment layout, condition tree, time range); it is non-trivial iff the real "
          "index reader pruned at least one fragment/block AND at least one row satisfies the condition (brute force). "
          "distinct_nontrivial = number of such cases (each case is generated exactly once by the odometer; reader "
